@@ -348,6 +348,9 @@ DROP_ATTRS = ("derive", "trace", "builtin", "allow", "inline", "must_use", "cold
               "repr", "default", "error", "diagnostic", "expect", "typed")
 
 
+R2_LOG = []   # texts dropped by R2 (cfg(feature = "exp-..."), cfg(test)) during the current process() call, for the evidence
+
+
 STD_DERIVES = {"Debug", "Clone", "Copy", "PartialEq", "Eq", "PartialOrd", "Ord", "Hash", "Default"}
 
 
@@ -374,6 +377,7 @@ def rewrite(text, keep_attrs=False, keep_pub=False, name="<item>", std_derives=F
                     s0 = sig[i][1]
                     e0 = sig[end][2]
                     cut.append((s0, e0))
+                    R2_LOG.append(f"{name}: " + re.sub(r"\s+", " ", text[s0:e0])[:160])
                     i = end + 1
                     continue
                 if mn:
@@ -436,6 +440,20 @@ def _element_end(src, i):
     first = src.tok(j)
     k = j
     is_item = first in KEYWORDS_ITEM or first in ("pub", "use")
+    if first in ("if", "for", "while", "loop", "match", "{", "unsafe") and not is_item:
+        # block-like statement: ends with its block (plus `else` chains)
+        while k < n:
+            t = src.tok(k)
+            if t == "{":
+                c = src.match[k]
+                if c + 1 < n and src.tok(c + 1) == "else":
+                    k = c + 2
+                    continue
+                return c
+            if t in OPEN:
+                k = src.match[k]
+            k += 1
+        return n - 1
     while k < n:
         t = src.tok(k)
         if t in CLOSE:
@@ -453,7 +471,7 @@ def _element_end(src, i):
             continue
         if t == "," and not is_item:
             return k
-        if t == ";" and is_item:
+        if t == ";":
             return k
         k += 1
     return n - 1
@@ -509,6 +527,7 @@ def process(template_text, tname="<template>"):
     lines = template_text.split("\n")
     out = []
     regions = []
+    del R2_LOG[:]
     ghosts = {}  # id -> list of (where, arg, text)
     # first pass: collect ghost blocks
     i = 0
@@ -579,7 +598,7 @@ def process(template_text, tname="<template>"):
                 raw = src.text[item["body_start"]:item["body_end"]]
                 rw = rewrite(raw, name=f"{file}::{selector}")
                 gen = inject(rw, ghosts.get(rid, []), f"{file}::{selector}")
-            regions.append({"id": rid, "file": file, "selector": selector, "kind": kind,
+            regions.append({"id": rid, "file": file, "selector": selector, "kind": kind, "r2_dropped": [x for x in R2_LOG if x.startswith(f"{file}::{selector}:")],
                             "sha256": sha(raw), "rewritten": rw, "lines": raw.count("\n") + 1})
             out.append(f"//@begin {rid}")
             out.append(gen.rstrip("\n"))
